@@ -254,20 +254,37 @@ class C15(Check):
                 vt, kw, nominal = pert_names[pname]
                 self.write_into_spec(pspec, vt, kw, float(val))
             twin, ttol, _ = self.setup(case, pspec, with_perts=False, targets=targets0)
-            comp_vals = quiet(ttol.apply_compensators)
-            want = [float(np.ravel(v)[0]) for v in ttol.evaluate()]
             got = [float(row[n]) for n in names]
+            if has_comp:
+                # stage (1) repeats the library's own sequence (nominal lens, values set through the variable handles,
+                # compensation) so that the optimiser starts from the same floating-point state: an ill-conditioned
+                # compensation started one ulp away can end somewhere else entirely
+                twin1, ttol1, _ = self.setup(case, spec, with_perts=False)
+                for pname, val in applied:
+                    if pname in pert_names:
+                        vt, kw, nominal = pert_names[pname]
+                        with contextlib.redirect_stdout(io.StringIO()):
+                            Variable(twin1, vt, apply_scaling=False, **kw).update(float(val))
+                comp_vals = quiet(ttol1.apply_compensators)
+                want = [float(np.ravel(v)[0]) for v in ttol1.evaluate()]
+            else:
+                comp_vals = {}
+                want = [float(np.ravel(v)[0]) for v in ttol.evaluate()]
             # operand values are defined to ~1e-12 of the lens scale (an intercept on the axis is 0 +- round-off)
             sc = [max(abs(a), abs(b), 1e-3 * Lsc) for a, b in zip(nominal_ops, want)]
             if has_comp:
                 # (1) the same compensation on the fresh copy ends where the recorded one did, to the optimiser's
-                #     tolerance (its path depends on round-off of the state it starts from)
-                out.close('row_equals_twin_replay', got, want, rtol=1e-3, scale=sc, atol=0.0, row=ri, mode=case['mode'],
-                          comp=case['comp'], stage='own compensation')
-                for k, v in comp_vals.items():
-                    if k in row:
-                        out.close('compensator_value_recorded', float(row[k]), float(np.ravel(v)[0]), rtol=1e-3,
-                                  atol=1e-6, row=ri)
+                #     tolerance (its path depends on round-off of the state it starts from).  Not when an operand is
+                #     undefined for this trial: the compensator then minimises a constant penalty and ends anywhere.
+                if all(map(math.isfinite, got)) and all(map(math.isfinite, want)):
+                    out.close('row_equals_twin_replay', got, want, rtol=1e-3, scale=sc, atol=0.0, row=ri, mode=case['mode'],
+                              comp=case['comp'], stage='own compensation')
+                    for k, v in comp_vals.items():
+                        if k in row:
+                            out.close('compensator_value_recorded', float(row[k]), float(np.ravel(v)[0]), rtol=1e-3,
+                                      atol=1e-6, row=ri)
+                else:
+                    out.cls('compensation_of_undefined_operands')
                 # (2) the recorded operands are exactly those of the lens with the recorded perturbation values and the
                 #     recorded compensator values
                 for i, var in enumerate(ttol.compensator.variables):
